@@ -209,6 +209,7 @@ def apply(w, ev):
             est.set_params(preprocessor=c[ev[4:]])
             w.prekey = ev[4:]
         elif ev == 'query_all':
+            out['public_before'] = public_digest(w)
             ds = get_data(w.fit[0])
             Q, P = probes(ds)
             Q2, P2 = Q.copy(), P.copy()
@@ -267,6 +268,13 @@ def world_digest(w):
     return digest(vars(w.est), type(w.est).__name__, w.pkey, w.prekey, w.fit, w.dirty, w.thr, met, mat)
 
 
+def public_digest(w):
+    """Digest of the OBSERVABLE state only (parameters and public attributes): a hidden cache created by a query is not
+    a change of the fitted state as long as every observable (checked separately against the fresh-instance oracle) is unchanged."""
+    pub = {k: v for k, v in vars(w.est).items() if not k.startswith('_')}
+    return digest(pub, type(w.est).__name__, w.fit, w.dirty, w.thr)
+
+
 def invariant_factory(name):
     c = consts(name)
 
@@ -299,8 +307,8 @@ def invariant_factory(name):
                 v.append(V(site, 'raises', '%s raised %s: %s' % (ev, type(e).__name__, str(e)[:160]), tr))
             return v
         # --- (iii) queries leave the state unchanged
-        if ev == 'query_all' and world_digest(w) != dig_before:
-            v.append(V(site, 'query_changes_state', 'query methods changed the estimator state', tr))
+        if ev == 'query_all' and public_digest(w) != out.get('public_before'):
+            v.append(V(site, 'query_changes_state', 'query methods changed the (public) estimator state', tr))
         # --- (i) fitted state equals the fresh-instance oracle
         if w.fit is not None and not w.dirty and ev != 'clone':
             ok, o = oracle(name, w.fit)
@@ -349,6 +357,9 @@ def invariant_factory(name):
                 Q, P = probes(get_data(w.fit[0]))
                 if not np.array_equal(est.pair_distance(P), o['dist']):
                     v.append(V(site, 'matrix_aliases_state', 'overwriting the returned matrix changed the learned distance', tr))
+                if not np.array_equal(est.get_mahalanobis_matrix(), o['est'].get_mahalanobis_matrix()):
+                    v.append(V(site, 'matrix_aliases_state', 'after the caller overwrote a matrix returned earlier, get_mahalanobis_matrix() no '
+                               'longer returns L^T L', tr))
         return v
     return invariant
 
